@@ -602,7 +602,7 @@ func main() {
 		var rows []fl
 		for path, f := range files {
 			base := filepath.Base(path)
-			if base != "token.go" && base != "simple_readers.go" && base != "decode.go" {
+			if base != "token.go" && base != "simple_readers.go" && base != "decode.go" && base != "rjson.go" && base != "machine_helpers.go" {
 				continue
 			}
 			for _, d := range f.Decls {
@@ -626,7 +626,7 @@ func main() {
 			}
 		}
 		sort.Slice(rows, func(i, j int) bool { return rows[i].name < rows[j].name })
-		fmt.Fprintf(&b, "/-- token.go, simple_readers.go, decode.go: every index and slice expression per function, in source order -/\ndef indexSites : List (String × String) := [")
+		fmt.Fprintf(&b, "/-- token.go, simple_readers.go, decode.go, rjson.go, machine_helpers.go: every index and slice expression per function, in source order -/\ndef indexSites : List (String × String) := [")
 		for i, r := range rows {
 			if i > 0 {
 				b.WriteString(", ")
